@@ -61,7 +61,7 @@ ASSUMPTIONS = ['IEEE rounding is not modelled: permuting filters changes the ord
                'or a copy is not part of the property']
 EXHAUSTIVE = {'quick': False, 'thorough': True}
 N = {'quick': dict(filter_perm=24, model_perm=24, scale=30, history=24),
-     'thorough': dict(filter_perm=600, model_perm=600, scale=1000, history=600)}
+     'thorough': dict(filter_perm=1800, model_perm=1800, scale=3000, history=1800)}
 FLAGS = [0, 1, 2, 3, 4, 9]
 
 
